@@ -662,6 +662,11 @@ fn hunt_views() -> Result<(), String> {
                         let a = m.view_at(*r).and_then(|v| v.find_exact(q)).map(|f| *f.prefix());
                         let b = m.view_mut_at(*r).and_then(|v| v.find_exact(q).ok()).map(|f| *f.prefix());
                         if a != b { return Err(format!("{desc}: view_mut_at({r:?}).find_exact({q:?}) is at {b:?}, the read-only view's at {a:?}")); }
+                        // a failed search hands back the ORIGINAL view
+                        let orig = m.view_at(*r).map(|v| (*v.prefix(), v.iter().count()));
+                        if let Some(v) = m.view_mut_at(*r) { if let Err(mut e) = v.find(*q) { let g = Some((*e.prefix(), e.iter_mut().count())); if g != orig { return Err(format!("{desc}: view_mut_at({r:?}).find({q:?}) failed and handed back a view at {g:?}, the original view is {orig:?}")); } } }
+                        if let Some(v) = m.view_mut_at(*r) { if let Err(mut e) = v.find_exact(q) { let g = Some((*e.prefix(), e.iter_mut().count())); if g != orig { return Err(format!("{desc}: view_mut_at({r:?}).find_exact({q:?}) failed and handed back a view at {g:?}, the original view is {orig:?}")); } } }
+                        if let Some(v) = m.view_mut_at(*r) { if let Err(mut e) = v.find_lpm(q) { let g = Some((*e.prefix(), e.iter_mut().count())); if g != orig { return Err(format!("{desc}: view_mut_at({r:?}).find_lpm({q:?}) failed and handed back a view at {g:?}, the original view is {orig:?}")); } } }
                         let a = m.view_at(*r).and_then(|v| v.find(*q)).map(|f| (*f.prefix(), f.iter().count()));
                         let b = m.view_mut_at(*r).and_then(|v| v.find(*q).ok()).map(|mut f| (*f.prefix(), f.iter_mut().count()));
                         if a != b { return Err(format!("{desc}: view_mut_at({r:?}).find({q:?}) is {b:?}, the read-only view's {a:?}")); }
@@ -673,6 +678,69 @@ fn hunt_views() -> Result<(), String> {
         }
     }
     println!("STATS hunt_views evaluations={n}");
+    Ok(())
+}
+
+// ---------------------------------------------------------------------------------------------------------
+// `hunt_panics` (C20, user callbacks): a panic is injected at every invocation index of the retain predicate and into the
+// closures of or_insert_with / insert_with / and_modify, for every key subset of the 7 prefixes (canonical and with
+// leftover value-less nodes).  After the unwound call the map must be well-formed (slot partition), size-consistent
+// (len() == iter().count()) and hold exactly the entries it held before, minus those the predicate had already rejected.
+// ---------------------------------------------------------------------------------------------------------
+fn hunt_panics() -> Result<(), String> {
+    std::panic::set_hook(Box::new(|_| {}));
+    let mut n = 0u64;
+    let state = |m: &PrefixMap<P, u16>| -> Vec<((u8, u8), u16)> { m.iter().map(|(p, v)| (*p, *v)).collect() };
+    let consistent = |m: &PrefixMap<P, u16>, what: &str, desc: &str| -> Result<(), String> {
+        partition_ok(m).map_err(|e| format!("{desc}: after a panic in {what}: slot partition broken: {e}"))?;
+        let c = m.iter().count();
+        if m.len() != c { return Err(format!("{desc}: after a panic in {what}: len() = {}, iter().count() = {c}", m.len())); }
+        Ok(())
+    };
+    for am in 0..128u32 {
+        for leftover in [false, true] {
+            let (m0, o) = build_sub(am, leftover, 0, 10);
+            let desc = format!("map {:?}{}", o.values().collect::<Vec<_>>(), if leftover { " (+ leftover value-less nodes)" } else { "" });
+            let before = state(&m0);
+            // retain: reject entries with an odd value; panic at invocation index i
+            for i in 0..before.len() {
+                n += 1;
+                let mut m = m0.clone();
+                let mut calls = 0usize;
+                let mut rejected: Vec<(u8, u8)> = Vec::new();
+                let r = std::panic::catch_unwind(std::panic::AssertUnwindSafe(|| {
+                    m.retain(|p, v| {
+                        if calls == i { panic!("injected"); }
+                        calls += 1;
+                        let keep = *v % 2 == 0;
+                        if !keep { rejected.push(*p); }
+                        keep
+                    });
+                }));
+                if r.is_ok() { return Err(format!("{desc}: retain with a predicate panicking at call {i} returned normally")); }
+                consistent(&m, &format!("the retain predicate (call {i})"), &desc)?;
+                let want: Vec<((u8, u8), u16)> = before.iter().filter(|e| !rejected.contains(&e.0)).cloned().collect();
+                let got = state(&m);
+                if got != want { return Err(format!("{desc}: after a panic in the retain predicate at call {i} (already rejected: {rejected:?}) the map holds {got:?}, expected {want:?}")); }
+            }
+            // entry closures
+            for k in 0..7 {
+                for (what, run) in [
+                    ("or_insert_with", (|m: &mut PrefixMap<P, u16>, k: usize| { m.entry(KEYS[k]).or_insert_with(|| panic!("injected")); }) as fn(&mut PrefixMap<P, u16>, usize)),
+                    ("VacantEntry::insert_with", |m: &mut PrefixMap<P, u16>, k: usize| { if let map::Entry::Vacant(e) = m.entry(KEYS[k]) { e.insert_with(|| panic!("injected")); } }),
+                    ("and_modify", |m: &mut PrefixMap<P, u16>, k: usize| { let _ = m.entry(KEYS[k]).and_modify(|_| panic!("injected")); }),
+                ] {
+                    n += 1;
+                    let mut m = m0.clone();
+                    let _ = std::panic::catch_unwind(std::panic::AssertUnwindSafe(|| run(&mut m, k)));
+                    consistent(&m, &format!("{what} on {:?}", KEYS[k]), &desc)?;
+                    let got = state(&m);
+                    if got != before { return Err(format!("{desc}: after a panic in the closure of {what} on {:?} the map holds {got:?}, expected {before:?}", KEYS[k])); }
+                }
+            }
+        }
+    }
+    println!("STATS hunt_panics evaluations={n}");
     Ok(())
 }
 
@@ -838,6 +906,7 @@ fn main() {
         ("hunt", hunt),
         ("hunt_setops", hunt_setops),
         ("hunt_views", hunt_views),
+        ("hunt_panics", hunt_panics),
         ("c04_entry_remove", c04_entry_remove),
         ("c04_entry_remove_reinsert", c04_entry_remove_reinsert),
         ("c04_view_remove", c04_view_remove),
